@@ -526,7 +526,7 @@ M("C12", "twin-is-better-two-returns", PRB, "        return a.maximizing_aggrega
 _MD_INIT = "        self.max_depth = max_depth\n        self.validate()\n"
 _MD_HELP = "\n    def distance_to_terminal(self, ty: type) -> int:\n        if ty not in self._distances:\n            self._distances[ty] = self.grammar.get_distance_to_terminal(ty)\n        return self._distances[ty]\n\n    def choose_production_alternatives(self, ty: type, alternatives: list[type], ctx: LocalSynthesisContext) -> type:\n        assert len(alternatives) > 0, \"No alternatives presented\"\n        alternatives = [\n            x for x in alternatives if self.distance_to_terminal(x) <= (self.max_depth - ctx.depth)\n        ]\n"
 _MD_ANCH = "\n    def choose_production_alternatives(self, ty: type, alternatives: list[type], ctx: LocalSynthesisContext) -> type:\n        assert len(alternatives) > 0, \"No alternatives presented\"\n        alternatives = [\n            x for x in alternatives if self.grammar.get_distance_to_terminal(x) <= (self.max_depth - ctx.depth)\n        ]\n"
-for _pid in ("C10", "C07"):
+for _pid in ("C10", "C07", "C03", "C04"):
     M(_pid, "twin-decider-distance-memo-on-a-copy", INI, _MD_INIT, "        self.max_depth = max_depth\n        self._distances = dict(grammar.distanceToTerminal)\n        self.validate()\n", "",
       expect="silent", extra=[(INI, _MD_ANCH, _MD_HELP)])
 M("C10", "decider-distance-memo-on-the-grammar-table", INI, _MD_INIT, "        self.max_depth = max_depth\n        self._distances = grammar.distanceToTerminal\n        self.validate()\n", "C10.R1",
